@@ -53,14 +53,18 @@ CHECKS = {
             "nondeterministic monotone expiry) is model-checked exhaustively for the C11 invariants, 'no commit after "
             "expiry' and termination. The real engine is run with a counting limit expiring first at poll k for every k "
             "up to the cost of three passes on small positions (seeded k on larger ones, with and without repetition "
-            "history); hook events and polls are validated against layer R by spec/SearchTrace.tla.",
+            "history; positions with a single legal move); the recorded run is validated against layer R by spec/SearchTrace.tla: the "
+            "properties are decided on what the search returns and on the commits as the observation of a finished pass; "
+            "disagreements with the control skeleton are drift.",
             "explicit TLA+ spec + TLC model checking; impl->spec trace validation", "5/C11",
             "Trusted: TLC; layer R; hook placement at the linearization points; polls deep in the tree are counted, not logged."),
     "C12": ("model_checking",
             "TLC enumerates placement families (K+Q, K+R, K+Q vs pawn shield, K+R+R, K+B+N; defending king on the edge, "
             "attacking king at supporting distance; both colours) and BFS states of mate-rich roots; the engine searches "
             "each until its first pass is committed; spec/SearchTrace.tla recomputes MateMoves of layer R and demands a "
-            "mating move with the mover's mate-in-one score when one exists and no mate-in-one score otherwise.",
+            "mating move with the mover's mate-in-one score when one exists and no mate-in-one score otherwise. Further "
+            "families emit only positions whose mate is a capture (attackers x defenders), whose mover is in check with one "
+            "or two legal moves, whose mate is an under-promotion, or whose mating move is played at half-move clock 99.",
             "explicit TLA+ spec + TLC behaviour generation; impl->spec trace validation", "5/C12",
             "Trusted: TLC; layer R; the limit used lets exactly the first pass finish."),
     "C13": ("model_checking",
@@ -74,7 +78,8 @@ CHECKS = {
             "BFS from extremal roots (EntryDemand <= 18 with roots that reach exactly 18, kings present, validity "
             "inductive). The implementation is explored: every scenario of the framework (walks, iterator sequences, "
             "parser/builder on ~200k arbitrary inputs, bitboards, text, the whole book, sliders, searches at every early "
-            "expiry instant, >65536 passes on O(1) trees, 1100-ply manoeuvres through the plugin) runs in a build with "
+            "expiry instant, >65536 passes on O(1) trees, 1100-ply manoeuvres through the plugin followed by searches, "
+            "16-bit move counters at their maximum, repetition histories beyond an 8-bit count) runs in a build with "
             "debug assertions and overflow checks; any panic or abnormal exit is a violation.",
             "explicit TLA+ spec + TLC for the preconditions; exploration of the implementation under an assertion-enabled build",
             "5/C07", "Undefined behaviour that does not trap is not observable; 'all sequences of safe calls' is sampled."),
@@ -89,7 +94,10 @@ CHECKS = {
             "The plugin is specified as a state machine over layer R (spec/BotTrace.tla: position + identities produced "
             "since set_board). The real cdylib is loaded through chess_api and driven with legal/illegal moves, undo "
             "moves and quiet shuffles that repeat positions, set_board in the middle, evaluate under counting limits; "
-            "TLC validates every call: applied iff legal, reported board = Apply, flag iff third occurrence, proposal legal.",
+            "TLC validates every call: applied iff legal, reported board = Apply, flag iff third occurrence, proposal legal. "
+            "Whole games between two instances driven like chess-cli's tournament loop are validated by the same module "
+            "(instances in step, verdict of the loop = verdict of the rules). The repetition table is model-checked for short "
+            "call sequences (spec/Bot.tla) and proved for histories of any length with TLAPS (spec/BotProofs.tla).",
             "explicit TLA+ spec + TLC; impl->spec trace validation through the real cdylib", "5/C15",
             "Trusted: TLC; layer R; set_board's own position is not counted as an occurrence (reading of the property)."),
     "C16": ("model_checking",
@@ -145,7 +153,8 @@ CHECKS = {
             "explicit TLA+ spec + TLC; impl->spec trace validation", "5/C10",
             "Trusted: TLC; the recording code of the harness. The boolean result of remove_move and widening the mask of "
             "a generation-restricted iterator are unspecified and unchecked; histories inside the two known-finding "
-            "classes are not generated."),
+            "classes (a call that moves the promotion cursor off the destination in progress; remove_move of a promotion) "
+            "are not generated."),
     "C20": ("model_checking",
             "spec/Tracing.tla (global flag, per-thread override and saved override, nine operations per thread) is "
             "explored completely for two threads by TLC: view invariant, non-interference action property, take/restore "
